@@ -41,6 +41,24 @@ func c14e(c *Ctx) {
 			base, okB := intConst(a[1])
 			bits, okS := intConst(a[2])
 			lit := c.term(fn, a[0])
+			// (a small helper that is handed the literal: judged by what its callers hand in)
+			if par, isPar := a[0].(*ssa.Parameter); isPar {
+				idx := paramIndex(fn, par)
+				all := idx >= 0
+				cnt := 0
+				for _, cs := range c.W.callsTo(fn) {
+					if isTestFunc(c.W, cs.Parent()) || idx >= len(cs.Common().Args) {
+						continue
+					}
+					cnt++
+					if !strings.HasSuffix(c.term(cs.Parent(), cs.Common().Args[idx]), ".Literal") {
+						all = false
+					}
+				}
+				if all && cnt > 0 {
+					lit = "<callers>.Literal"
+				}
+			}
 			// what was decoded is used as it is: converted to int at most (a narrower integer type
 			// on the way wraps large values silently)
 			if call, isCall := ci.(*ssa.Call); isCall && call.Referrers() != nil {
